@@ -394,6 +394,14 @@ class ArgumentParser(argparse.ArgumentParser):
         )
 
     def print_help(self, file=None, args: Sequence[str] | None = None):
+        if self.config_path and not self._preprocessing_done:
+            # Apply the config file(s) before the arguments are generated, like `parse_known_args`
+            # does: once generated, the arguments keep the defaults they were created with.
+            config_paths = (
+                [self.config_path] if isinstance(self.config_path, Path) else self.config_path
+            )
+            for config_file in config_paths:
+                self.set_defaults(config_file)
         self._preprocessing(args=list(args) if args else [])
         return super().print_help(file)
 
